@@ -109,6 +109,38 @@ fn find_prop(id: &str) -> Option<PropDef> {
 
 /// Run one case under catch_unwind; a panic that escapes the monitors' own catchers is
 /// classified by where it was raised.
+/// Multiplier applied to the base count of every sampled generator (see cmd_run).
+fn workload_scale(prop: &str, tier: Tier) -> u64 {
+    let (q, t) = match prop {
+        "C01" => (20, 6),
+        "C02" => (30, 6),
+        "C03" => (60, 6),
+        "C04" => (100, 6),
+        "C05" => (3, 2),
+        "C06" => (40, 6),
+        "C07" => (16, 6),
+        "C08" => (100, 6),
+        "C09" => (200, 6),
+        "C10" => (150, 6),
+        "C11" => (300, 6),
+        "C12" => (50, 6),
+        "C13" => (40, 6),
+        "C14" => (25, 6),
+        "C15" => (400, 6),
+        "C16" => (1000, 6),
+        "C17" => (6, 2),
+        "C18" => (400, 6),
+        "C19" => (100, 6),
+        "C20" => (40, 4),
+        _ => (1, 1),
+    };
+    match tier {
+        Tier::Lite => 1,
+        Tier::Quick => q,
+        Tier::Thorough => t,
+    }
+}
+
 fn guarded_case(p: &PropDef, gen: &str, index: u64, seed: u64, tier: Tier, rep: &mut Report) {
     rep.cur_gen = gen.to_string();
     rep.cur_index = index;
@@ -207,6 +239,12 @@ fn cmd_run(args: &[String]) -> i32 {
         .into_iter()
         .filter(|g| only.as_deref().map(|o| o == g.name).unwrap_or(true))
         .map(|mut g| {
+            // workload size: the generators state base counts; the sampled (non-exhaustive) ones
+            // are multiplied per property and tier so that a quick run takes some 10-25 s and a
+            // thorough run several minutes on 16 cores
+            if !g.exhaustive {
+                g.count = g.count.saturating_mul(workload_scale(p.id, tier));
+            }
             // the lite tier (Miri / sanitizer builds) runs a handful of cases of every generator
             if tier == Tier::Lite {
                 let cap = if cfg!(miri) { 2 } else { 8 };
